@@ -41,12 +41,15 @@ def points(draw, times_=None, meas=W_MEAS):
     t = draw(times_ if times_ is not None else times())
     tk = draw(st.lists(st.sampled_from(W_TKEYS), max_size=2, unique=True))
     fk = draw(st.lists(st.sampled_from(W_FKEYS), max_size=2, unique=True))
-    return {
+    p = {
         "time": t,
         "measurement": draw(st.sampled_from(meas)),
         "tags": {k: draw(st.sampled_from(W_TVALS)) for k in tk},
         "fields": {k: draw(st.sampled_from(W_FVALS)) for k in fk},
     }
+    if draw(st.integers(0, 24)) == 0:
+        p["tags"]["big"] = "y" * 9000  # a row larger than one I/O buffer: reads that stop early leave the file position mid-file
+    return p
 
 
 def to_point(mp, tz=None):
